@@ -4,6 +4,8 @@ C15 — load/save algebra and a case characterisation of every basic operation:
 either the result is an error and the state is untouched, or the result is `ok`, the guards
 held and the new state is an explicit sequence of saves.
 -/
+set_option linter.unusedSectionVars false
+set_option linter.unusedSimpArgs false
 namespace C15
 section
 variable {σ κ : Type} [DecidableEq σ] [DecidableEq κ] (c : Cfg σ κ)
